@@ -8,7 +8,6 @@ import (
 	"fmt"
 	"os"
 	"path/filepath"
-	"strings"
 
 	"github.com/JunNishimura/Goit/internal/object"
 	"github.com/JunNishimura/Goit/internal/store"
@@ -95,7 +94,7 @@ func restoreWorkingDirectory(rootGoitPath, path string, index *store.Index) erro
 
 func cleanPathArg(arg string) string {
 	cleanedArg := filepath.Clean(arg)
-	return strings.ReplaceAll(cleanedArg, `\`, "/")
+	return filepath.ToSlash(cleanedArg)
 }
 
 // paths known to the index that the argument names: the entry itself or the entries beneath the directory
